@@ -5,7 +5,8 @@ def nontrivial(c):
     if not has_uc or "get" not in ops:
         return False
     first_get = ops.index("get")
-    return any(o == "peers" for o in ops[first_get:]) or (any(o == "peers" for o in ops[:first_get]))
+    chg = ("peers", "peercb")
+    return any(o in chg for o in ops[first_get:]) or (any(o in chg for o in ops[:first_get]))
 
 
 SPEC = dict(
@@ -17,7 +18,8 @@ SPEC = dict(
     thorough=dict(cases=48000, len=60, shards=16),
     nontrivial=nontrivial,
     rule="same generated cases as C12 (real SamplerFactory, 1-4 simulated workers, histories of get/peers/peersfail/setcfg/"
-         "clear/wreload; goals 1..1000, 0 and negative; peer counts 0,1,2,3,4,7,10,100,1000,2000 and failing queries); "
+         "clear/wreload/cget/reload plus membership changes split into peerset (source changes) and peercb (callback runs) with "
+         "sampler creations in between; goals 1..1000, 0 and negative; peer counts 0,1,2,3,4,7,10,100,1000,2000 and failing queries); "
          "non-trivial = some configuration has a UseClusterSize throughput sampler, a sampler is built and the peer count "
          "changes before or after; distinct by transcript hash",
     trusted_base=["GoalThroughputPerSec read directly from the dynsampler-go structs (no concurrent writer in the harness)",
@@ -26,8 +28,9 @@ SPEC = dict(
     manifest=dict(
         text="Lean theorems over all histories of peer-count changes (including failing and empty queries), lazy creations "
              "on any worker, config swaps and reloads: goal_invariant_registry (every registered throughput instance whose "
-             "key is tracked has goal max(cfg/peers,1), untracked ones their creation goal), goal_invariant (per definition, "
-             "when keys determine type and goal), peerCount_spec, no_cluster_size_fixed (full statement REFUTED by a "
+             "key is tracked has goal max(cfg/peers in force,1), untracked ones their creation goal), goal_invariant (per definition, "
+             "when keys determine type and goal), goal_invariant_after_callback (every live UseClusterSize sampler, whatever was "
+             "created between a membership change and its callback), peerCount_after_callback, peerCount_spec, no_cluster_size_fixed (full statement REFUTED by a "
              "machine-checked witness: a definition without UseClusterSize shares its instance with one that has it; proved "
              "under the no-collision hypothesis). Tied to sample/sample.go by differential replay on the real SamplerFactory "
              "observing GoalThroughputPerSec of every registered dynsampler after every step.",
@@ -35,6 +38,7 @@ SPEC = dict(
         technique="Lean 4 proof (state invariant by induction over histories) + model/implementation correspondence check",
     ),
     assumptions=["each SamplerFactory method is atomic (it holds the factory mutex)",
-                 "the peers callback fires after every membership change (updatePeerCounts is the only reader of the peer list)",
+                 "the peers callback eventually fires after a membership change; between the change and the callback nothing is required "
+                 "of the goals (the monitor checks again once the callback has run)",
                  "a configured goal of 0 means the dynsampler library default (100) for samplers without UseClusterSize"],
 )
